@@ -22,6 +22,7 @@ import (
 	"com.tuntun.rangers/node/src/core"
 	"com.tuntun.rangers/node/src/middleware/db"
 	"com.tuntun.rangers/node/src/middleware/log"
+	"com.tuntun.rangers/node/src/middleware/mysql"
 	"com.tuntun.rangers/node/src/middleware/types"
 	"verif/harness/internal/vutil"
 )
@@ -306,7 +307,9 @@ func presOf(o op) []int {
 func mkGroup(i int, pre []byte) *types.Group {
 	h := &types.GroupHeader{Parent: genesis.Id, PreGroup: pre, CreateHeight: uint64(10 * i)}
 	h.Hash = h.GenHash()
-	return &types.Group{Header: h, Id: idOf(i), PubKey: []byte{byte(i)}, Members: [][]byte{{1}, {2}, {3}}}
+	// the height a delivered group CLAIMS (a wire field outside the group hash): never the one it gets
+	return &types.Group{Header: h, Id: idOf(i), PubKey: []byte{byte(i)}, Members: [][]byte{{1}, {2}, {3}},
+		GroupHeight: uint64(1 + (i*7)%5)}
 }
 
 func fresh(root string, n int) {
@@ -505,6 +508,22 @@ func (p *pausingLogger) Debugf(format string, params ...interface{}) {
 
 var concForkPlaced int
 
+// restartInto drops the chain object and runs initGroupChain over the stores as they are; when the
+// initialisation dies the event becomes RestartFailed (with the projection taken before the call).
+func restartInto(call map[string]interface{}, before map[string]interface{}) (ok bool) {
+	defer func() {
+		if r := recover(); r != nil {
+			call["panic"] = fmt.Sprint(r)
+			call["event"] = "RestartFailed"
+			call["state"] = before
+			ok = false
+		}
+	}()
+	core.VerifCloseGroupChain()
+	core.VerifInitGroupChain(helper)
+	return true
+}
+
 type crashNow struct{}
 
 // crashLast repeats the last call of history h with a process death before its k-th physical
@@ -537,6 +556,7 @@ func crashLast(tr *vutil.Trace, root string, n int, h []op) int {
 			}
 		}
 		var ev map[string]interface{}
+		removed := core.GetGroupChain().LastGroup()
 		died := func() (died bool) {
 			defer func() {
 				if r := recover(); r != nil {
@@ -551,7 +571,29 @@ func crashLast(tr *vutil.Trace, root string, n int, h []op) int {
 		}()
 		db.VerifOnWrite = nil
 		if !died {
-			return done // the call makes fewer than k writes
+			// the call made fewer than k writes and completed. One more death: after its last store
+			// write and before the row of the sqlite group index is written / deleted (no store write
+			// follows, so the write hook cannot place it): the call has completed, the sqlite half is
+			// undone through the index's own exported functions, then the restart
+			after := map[string]interface{}{"event": "Crash", "call": lastOp.Op, "k": k, "afterStore": true, "g": lastOp.G, "pre": lastOp.Pre}
+			switch {
+			case lastOp.Op == "Add" && ev != nil && ev["ok"] == true:
+				after["pre"] = before["last"]
+				if err := mysql.DeleteGroup(idOf(lastOp.G)); err != nil {
+					vutil.Fatalf("sqlite: %v", err)
+				}
+			case lastOp.Op == "Remove" && ev != nil && ev["ok"] == true && removed != nil:
+				if err := mysql.InsertGroup(removed); err != nil {
+					vutil.Fatalf("sqlite: %v", err)
+				}
+			default:
+				return done
+			}
+			if restartInto(after, before) {
+				after["state"] = project()
+			}
+			tr.Emit(after)
+			return done + 1
 		}
 		done++
 		call := map[string]interface{}{"event": "Crash", "call": lastOp.Op, "k": k, "g": lastOp.G, "pre": lastOp.Pre}
@@ -562,24 +604,9 @@ func crashLast(tr *vutil.Trace, root string, n int, h []op) int {
 			call["ids"], call["pres"] = lastOp.Ids, presOf(lastOp)
 		}
 		_ = ev
-		restarted := func() (ok bool) {
-			defer func() {
-				if r := recover(); r != nil {
-					call["panic"] = fmt.Sprint(r)
-					ok = false
-				}
-			}()
-			core.VerifCloseGroupChain()
-			core.VerifInitGroupChain(helper)
-			return true
-		}()
-		if !restarted {
-			call["event"] = "RestartFailed"
-			call["state"] = before
-			tr.Emit(call)
-			continue
+		if restartInto(call, before) {
+			call["state"] = project()
 		}
-		call["state"] = project()
 		tr.Emit(call)
 	}
 	return done
